@@ -60,14 +60,41 @@ def systems(tier):
             yield [list(x) for x in m]
 
 
+def hol_systems(tier):
+    """Second family: systems  a*x + b*y  op  k  given (i) as HOL terms to SimplexMacro / StrictSimplexMacro (op also < and >),
+    (ii) to simplex_strict.Simplex, (iii) inside the box -2..2 to Simplex + branch_and_bound and IntegerSimplexMacro."""
+    cf = [(a_, b_) for a_ in (-1, 0, 1) for b_ in (-1, 0, 1) if (a_, b_) != (0, 0)]
+    cf2 = cf + [(2, 1), (1, -2), (2, -2), (-2, 3), (2, 0), (3, 0), (0, 2)]
+    ops = ('<=', '>=', '<', '>')
+    rowsA = [[a_, b_, op, k_] for (a_, b_) in tier_param(tier, cf, cf2) for op in ops for k_ in (-1, 0, 1)]
+    for m in itertools.product(rowsA, repeat=2):
+        yield ['R', [list(x) for x in m]]
+    rowsB = [[a_, b_, op, k_] for (a_, b_) in cf for op in tier_param(tier, ('<=', '>', '>='), ops) for k_ in (0, 1)]
+    for m in itertools.product(rowsB, repeat=3):
+        if m[0] <= m[1] <= m[2] or tier != 'quick':
+            yield ['R', [list(x) for x in m]]
+    rowsI = [[a_, b_, op, k_] for (a_, b_) in cf2 for op in ('<=', '>=') for k_ in tier_param(tier, (0, 1), (-1, 0, 1, 2))]
+    for n in (1, 2):
+        for m in itertools.product(rowsI, repeat=n):
+            yield ['I', [list(x) for x in m]]
+    if tier != 'quick':
+        rowsI3 = [[a_, b_, op, k_] for (a_, b_) in ((2, 1), (1, -2), (2, -2), (-2, 3), (2, 0), (3, 2), (1, 1)) for op in ('<=', '>=') for k_ in (0, 1)]
+        for m in itertools.product(rowsI3, repeat=3):
+            yield ['I', [list(x) for x in m]]
+
+
 def cases(tier):
     for m in systems(tier):
+        yield m
+    for m in hol_systems(tier):
         yield m
 
 
 def setup(tier):
     from prover import omega  # noqa (loads theory int)
-    from prover import simplex  # noqa
+    from prover import simplex, simplex_strict  # noqa
+    from logic import basic
+    basic.load_theory('real')
     _S['box'] = bounds(tier)['box']
 
 
@@ -205,7 +232,268 @@ def judge_omega_hol(m):
     return 'unsat', None
 
 
+# ---------------------------------------------------------------------------------------------------------------------
+# second family: strict simplex, branch-and-bound, the HOL wrappers / macros
+
+_OPF = {'<=': lambda l, r: l <= r, '>=': lambda l, r: l >= r, '<': lambda l, r: l < r, '>': lambda l, r: l > r}
+IBOX = 2
+
+
+def strict_fm_feasible(rows):
+    """rows: (a, b, op, k) over the rationals.  Exact Fourier-Motzkin with strictness flags."""
+    cur = []
+    for a_, b_, op, k_ in rows:       # normalise to  c.x + k (>|>=) 0
+        if op in ('<=', '<'):
+            cur.append((Fraction(-a_), Fraction(-b_), Fraction(k_), op == '<'))
+        else:
+            cur.append((Fraction(a_), Fraction(b_), Fraction(-k_), op == '>'))
+    for i in range(2):
+        pos = [r for r in cur if r[i] > 0]
+        neg = [r for r in cur if r[i] < 0]
+        new = [r for r in cur if r[i] == 0]
+        for p in pos:
+            for q in neg:
+                new.append(tuple(x * (-q[i]) + y * p[i] for x, y in zip(p[:3], q[:3])) + (p[3] or q[3],))
+        cur = list(set(new))
+    return all((r[2] > 0) if r[3] else (r[2] >= 0) for r in cur)
+
+
+def int_box_solution(rows):
+    rng = range(-IBOX, IBOX + 1)
+    for x in rng:
+        for y in rng:
+            if all(_OPF[op](a_ * x + b_ * y, k_) for a_, b_, op, k_ in rows):
+                return (x, y)
+    return None
+
+
+def hol_terms(rows, ty):
+    from kernel.term import Var, Int, Real, less_eq, less, greater_eq, greater
+    from kernel.type import IntType, RealType
+    T = IntType if ty == 'int' else RealType
+    num = Int if ty == 'int' else Real
+    mk = {'<=': less_eq, '<': less, '>=': greater_eq, '>': greater}
+    x, y = Var('x', T), Var('y', T)
+    out = []
+    for a_, b_, op, k_ in rows:
+        parts = [num(c) * v for c, v in ((a_, x), (b_, y)) if c != 0]
+        lhs = parts[0] if len(parts) == 1 else parts[0] + parts[1]
+        out.append(mk[op](T)(lhs, num(k_)))
+    return out
+
+
+def _strip_one(t):
+    if t.is_comb():
+        if t.is_times() and t.arg1.is_number() and t.arg1.dest_number() == 1:
+            return _strip_one(t.arg)
+        return _strip_one(t.fun)(_strip_one(t.arg))
+    return t
+
+
+def judge_proof(tag, case, rows, tms, pt, feasible_witness):
+    """pt: ProofTerm returned as a contradiction proof.  Checked by the kernel; must conclude false from given constraints only."""
+    from kernel import term, theory, report
+    try:
+        rpt = report.ProofReport()
+        th = theory.check_proof(pt.export(), rpt)
+    except Exception as e:
+        return viol(tag + '-proof-rejected', case, '%s: contradiction proof of %s rejected by the checker: %s: %s' % (
+            tag, [str(t) for t in tms], type(e).__name__, str(e)[:200]))
+    if th.prop != term.false or rpt.gaps:
+        return viol(tag + '-proof-concl', case, '%s: proof for %s concludes %s (gaps %s)' % (tag, [str(t) for t in tms], th.prop, rpt.gaps))
+    given = set(tms) | {_strip_one(t) for t in tms}      # the macros state a unit coefficient 1 * v as v (real_mul_lid); same constraint
+    extra = [h for h in th.hyps if h not in given and _strip_one(h) not in given]
+    if extra:
+        return viol(tag + '-proof-hyps', case, '%s: contradiction proof for %s rests on hypotheses that are not among the given constraints: %s' % (
+            tag, [str(t) for t in tms], [str(h) for h in extra]))
+    if feasible_witness is not None:
+        return viol(tag + '-proof-of-sat', case, '%s: kernel-checked contradiction from the satisfiable system %s (%s)' % (
+            tag, [str(t) for t in tms], feasible_witness))
+    return None
+
+
+def _quiet(fn):
+    import io, contextlib
+    with contextlib.redirect_stdout(io.StringIO()):
+        return fn()
+
+
+def judge_real_macros(case, rows):
+    from prover import simplex, simplex_strict
+    from kernel.proofterm import ProofTerm
+    tms = hol_terms(rows, 'real')
+    feas = strict_fm_feasible(rows)
+    strict = any(op in ('<', '>') for _, _, op, _ in rows)
+    res = []
+    for tag, M in (('simplex_macro', simplex.SimplexMacro), ('strict_simplex_macro', simplex_strict.StrictSimplexMacro)):
+        if strict and tag == 'simplex_macro':
+            continue
+        try:
+            r = _quiet(lambda: M().get_proof_term(args=list(tms)))
+        except (RecursionError, Exception):
+            res.append(tag + ':exc')
+            continue
+        if isinstance(r, ProofTerm):
+            out = judge_proof(tag, case, rows, tms, r, 'Fourier-Motzkin: feasible' if feas else None)
+            if out is not None:
+                return res, out
+            res.append(tag + ':unsat')
+        else:
+            if not feas:
+                return res, viol(tag + '-sat-wrong', case, '%s returns the assignment %s for the infeasible system %s' % (tag, r, [str(t) for t in tms]))
+            res.append(tag + ':sat')
+    return res, None
+
+
+def judge_strict_raw(case, rows):
+    """simplex_strict.Simplex on the bare tableau; a SAT mapping x -> (c, k) stands for c + k*delta and must satisfy every row for
+    some delta > 0 (tried: 2^-1 .. 2^-40, exact rationals)."""
+    from prover import simplex_strict as ss
+    s = ss.Simplex()
+    try:
+        for a_, b_, op, k_ in rows:
+            jars = [ss.Jar(c, v) for c, v in ((a_, 'x'), (b_, 'y')) if c != 0]
+            if op in ('<=', '<'):
+                s.add_ineq(ss.LessEq(jars, ss.Pair(k_, -1 if op == '<' else 0)))
+            else:
+                s.add_ineq(ss.GreaterEq(jars, ss.Pair(k_, 1 if op == '>' else 0)))
+        try:
+            _quiet(s.handle_assertion)
+            status = 'SAT'
+        except (ss.UNSATException, ss.AssertLowerException, ss.AssertUpperException):
+            status = 'UNSAT'
+    except (RecursionError, Exception):
+        return 'exc', None
+    feas = strict_fm_feasible(rows)
+    if status == 'UNSAT':
+        if feas:
+            return 'bad', viol('strict-unsat-wrong', case, 'simplex_strict.Simplex answers UNSAT on the feasible system %r' % (rows,))
+        return 'unsat', None
+    if not feas:
+        return 'bad', viol('strict-sat-wrong', case, 'simplex_strict.Simplex answers SAT (%s) on the infeasible system %r' % (s.mapping, rows))
+    def val(v, d):
+        p = s.mapping.get(v, ss.Pair(0, 0))
+        if not isinstance(p, ss.Pair):
+            return Fraction(p)
+        return Fraction(p.x) + Fraction(p.y) * d
+    ok = False
+    for e in (1, 2, 4, 8, 16, 40):
+        d = Fraction(1, 2 ** e)
+        x, y = val('x', d), val('y', d)
+        if all(_OPF[op](a_ * x + b_ * y, k_) for a_, b_, op, k_ in rows):
+            ok = True
+            break
+    if not ok:
+        return 'bad', viol('strict-witness-wrong', case, 'simplex_strict.Simplex answers SAT on %r with x=%s y=%s, which satisfies the rows for no delta in 2^-1..2^-40' % (
+            rows, s.mapping.get('x'), s.mapping.get('y')))
+    return 'sat', None
+
+
+class _NodeCap(BaseException):
+    pass
+
+
+def judge_bnb(case, rows):
+    """Simplex + branch_and_bound on rows plus the box -IBOX <= x, y <= IBOX (so branching terminates and the box search is exact).
+    branch_and_bound swallows every exception: a persistent node cap (raised from IntSimplexTree.__init__) empties its queue."""
+    from prover import simplex
+    full = [list(r) for r in rows] + [[1, 0, '>=', -IBOX], [1, 0, '<=', IBOX], [0, 1, '>=', -IBOX], [0, 1, '<=', IBOX]]
+    cap = [0]
+    orig = simplex.IntSimplexTree.__init__
+
+    def counted(self, *a, **kw):
+        cap[0] += 1
+        if cap[0] > 400:
+            raise _NodeCap()
+        orig(self, *a, **kw)
+    simplex.IntSimplexTree.__init__ = counted
+    try:
+        s = simplex.Simplex()
+        for a_, b_, op, k_ in full:
+            jars = [simplex.Jar(c, v) for c, v in ((a_, 'x'), (b_, 'y')) if c != 0]
+            s.add_ineq((simplex.LessEq if op == '<=' else simplex.GreaterEq)(jars, k_))
+        r = _quiet(lambda: simplex.branch_and_bound(s, [], []))
+    except _NodeCap:
+        return 'cap', None
+    except (RecursionError, Exception):
+        return 'exc', None
+    finally:
+        simplex.IntSimplexTree.__init__ = orig
+    if cap[0] > 400:
+        return 'cap', None
+    sol = int_box_solution(full)
+    if isinstance(r, dict):
+        x, y = Fraction(r.get('x', 0)), Fraction(r.get('y', 0))
+        if x.denominator != 1 or y.denominator != 1 or not all(_OPF[op](a_ * x + b_ * y, k_) for a_, b_, op, k_ in full):
+            return 'bad', viol('bnb-sat-wrong', case, 'branch_and_bound returns x=%s y=%s for %r, which is not an integer solution' % (x, y, full))
+        return 'sat', None
+    if sol is not None:
+        return 'bad', viol('bnb-unsat-wrong', case, 'branch_and_bound finds no integer solution of %r, but %r is one' % (full, sol))
+    return 'unsat', None
+
+
+def judge_int_macro(case, rows):
+    from prover import simplex
+    from kernel.proofterm import ProofTerm
+    full = [list(r) for r in rows] + [[1, 0, '>=', -IBOX], [1, 0, '<=', IBOX], [0, 1, '>=', -IBOX], [0, 1, '<=', IBOX]]
+    tms = hol_terms(full, 'int')
+    cap = [0]
+    orig = simplex.IntSimplexTree.__init__
+
+    def counted(self, *a, **kw):
+        cap[0] += 1
+        if cap[0] > 400:
+            raise _NodeCap()
+        orig(self, *a, **kw)
+    simplex.IntSimplexTree.__init__ = counted
+    try:
+        r = _quiet(lambda: simplex.IntegerSimplexMacro().get_proof_term(args=list(tms)))
+    except _NodeCap:
+        return 'cap', None
+    except (RecursionError, Exception):
+        return 'exc', None
+    finally:
+        simplex.IntSimplexTree.__init__ = orig
+    if cap[0] > 400:
+        return 'cap', None
+    sol = int_box_solution(full)
+    if isinstance(r, ProofTerm):
+        out = judge_proof('integer_simplex', case, full, tms, r, None if sol is None else 'integer solution %r' % (sol,))
+        return ('bad', out) if out is not None else ('unsat', None)
+    if sol is None:
+        return 'bad', viol('integer_simplex-sat-wrong', case, 'integer_simplex returns %s for %s, which has no integer solution' % (r, [str(t) for t in tms]))
+    return 'sat', None
+
+
+def run_hol(case):
+    kind, rows = case
+    rows = [tuple(r) for r in rows]
+    res = []
+    if kind == 'R':
+        r1, out = judge_real_macros(case, rows)
+        if out is not None:
+            return out
+        res += r1
+        st, out = judge_strict_raw(case, rows)
+        if out is not None:
+            return out
+        res.append('strict:' + st)
+    else:
+        st, out = judge_bnb(case, rows)
+        if out is not None:
+            return out
+        res.append('bnb:' + st)
+        st, out = judge_int_macro(case, rows)
+        if out is not None:
+            return out
+        res.append('intmacro:' + st)
+    decided = any(x.endswith(':sat') or x.endswith(':unsat') for x in res)
+    return Outcome(kind + '/' + ','.join(res), decided, obs=','.join(res))
+
+
 def run(m):
+    if m and m[0] in ('R', 'I'):
+        return run_hol(m)
     res = []
     for name, fn in (('omega', lambda: judge_omega(m)), ('simplex', lambda: judge_simplex(m, False)),
                      ('simplexL', lambda: judge_simplex(m, True))):
